@@ -451,9 +451,9 @@ namespace xtl
         xdynamic_bitset(const xdynamic_bitset_base<Y>& rhs);
 
         ~xdynamic_bitset() = default;
-        xdynamic_bitset(xdynamic_bitset&& rhs) = default;
+        xdynamic_bitset(xdynamic_bitset&& rhs) noexcept(std::is_nothrow_move_constructible<storage_type>::value);
         xdynamic_bitset& operator=(const xdynamic_bitset& rhs) = default;
-        xdynamic_bitset& operator=(xdynamic_bitset&& rhs) = default;
+        xdynamic_bitset& operator=(xdynamic_bitset&& rhs) noexcept(std::is_nothrow_move_assignable<storage_type>::value);
 
         void assign(size_type count, bool b);
         template <class BlockInputIt>
@@ -519,6 +519,25 @@ namespace xtl
     inline xdynamic_bitset<B, A>::xdynamic_bitset(const xdynamic_bitset& rhs)
         : base_type(storage_type(rhs.block_begin(), rhs.block_end()), rhs.size())
     {
+    }
+
+    template <class B, class A>
+    inline xdynamic_bitset<B, A>::xdynamic_bitset(xdynamic_bitset&& rhs) noexcept(std::is_nothrow_move_constructible<storage_type>::value)
+        : base_type(std::move(rhs))
+    {
+        // the blocks are gone: the source must not keep the size that went with them
+        rhs.clear();
+    }
+
+    template <class B, class A>
+    inline auto xdynamic_bitset<B, A>::operator=(xdynamic_bitset&& rhs) noexcept(std::is_nothrow_move_assignable<storage_type>::value) -> xdynamic_bitset&
+    {
+        if (this != &rhs)
+        {
+            base_type::operator=(std::move(rhs));
+            rhs.clear();
+        }
+        return *this;
     }
 
     template <class B, class A>
